@@ -628,6 +628,14 @@ def first_difference(o1, o2):
     return None, None
 
 
+def without_members(o, names):
+    """An observation of a defined class restricted to the members NOT in names (behaviour is not separable)."""
+    keep = lambda d: {k: v for k, v in d.items() if k not in names}
+    return {"def": "ok", "fields": [n for n in o["fields"] if n not in names],
+            "required": [n for n in o["required"] if n not in names], "objs": keep(o["objs"]),
+            "defaults": keep(o["defaults"]), "beh": []}
+
+
 def both_fail_to_serialize(x, y):
     """Same stored state, serialization raises for both: with two unserialisable members the error that
     surfaces first follows the order of declaration, which the property does not speak about."""
@@ -778,6 +786,13 @@ def run_class_cases(rep, cases, ctx, workdir, rnd, per_field):
                     if long_names and o_f["def"] == "ok" and obs[0][vi]["def"] == "ok" and \
                             set(obs[0][vi]["fields"]) - set(o_f["fields"]) == set(long_names) & set(obs[0][vi]["fields"]):
                         key = K_FUTURE
+                        # the known defect explains the lost members only: the OTHER members must still agree
+                        rest = without_members(obs[0][vi], long_names), without_members(o_f, long_names)
+                        a2, d2 = first_difference(*rest)
+                        if a2:
+                            report(rep, "C13/future-annotations/%s/%s" % (a2, "+".join(
+                                decl_sig(d) for n, d in zip(names, v["decls"]) if n not in long_names)),
+                                a2, d2, c, vi, vi, False, True)
                     elif long_names and obs[0][vi]["def"] != o_f["def"] and \
                             all(n not in (o_f.get("fields") or []) for n in long_names):
                         key = K_FUTURE
